@@ -74,7 +74,7 @@ func init() {
 	checks["C03"] = func(r *Report, p *Program, tier string) {
 		r.Explanation = "Decides the acceptance filter on all three delivery paths: in the directed send helper a reply is decoded only under len==64 and serial==addressed serial, and every value returned without error derives from that decode or is the zero value of the no-reply case (F1); the broadcast receive filter accepts iff len==64 and the serial matches (F2) and the receive loop ends only on read error or acceptance, returning the datagram just read (F3); the decoder and both dispatchers index the message only after len==64 and accept only 0x17, or 0x19 with function 0x20 (F4); request and reply types carry the operation's own function code (A3, L5, L6); the four driver send methods agree on the 0x96 no-reply case (T5). Not decided: what the kernel delivers, or deadline timing."
 		r.Assumptions = []string{"go/ssa is faithful", "the codec enforces the function code of the struct it decodes into (rule F4 + L5)"}
-		c := NewCodec(r, p, false)
+		c := NewCodec(r, p, true)
 		if c == nil {
 			return
 		}
